@@ -44,6 +44,8 @@ def _build(job):
         return ("ok", tg, time.time() - t0)
     except MachineryFailure as e:
         return ("fail", str(e), time.time() - t0)
+    except __import__("vf.harness_c", fromlist=["x"]).GeneratedCodeDoesNotCompile as e:
+        return ("genfail", "generated code does not compile (C06's clause): " + str(e)[-1500:], time.time() - t0)
     except Exception as e:  # generation itself failed: that is an observation about /repo, reported by the caller
         import traceback
 
